@@ -109,6 +109,31 @@ def search(ctx):
                 if canonical and not th <= np.pi + 1e-9:
                     report(g.name + ".log:principal", "rotation part of log(X) has angle > pi (not the principal rotation vector)",
                            dict(inp, angle=float(th)), th - np.pi, 1e-9)
+    # Euler elements ON and INSIDE the gimbal band (pitch within 1e-3 rad of +-pi/2): the documented band tolerance applies
+    # (roll is folded into yaw there), so the rotation must come back to within a few 1e-3 entrywise — at BOTH poles
+    eexp = nl.F("SO3", "SO3Euler.exp"); elog = nl.F("SO3", "SO3Euler.log"); etoM = nl.F("SO3", "SO3Euler.toMatrix")
+    qexp = nl.F("SO3", "SO3Quat.exp")
+    for sgn in (1.0, -1.0):
+        for d in (0.0, 1e-6, 3e-4, 9e-4):
+            for r in range(reps):
+                X = np.array([rng.uniform(-3, 3), sgn * (np.pi / 2 - d), rng.uniform(-3, 3) if r else 0.0])
+                M = np.atleast_2d(etoM(X)); y = np.atleast_1d(elog(X)); ev += 1
+                inp = {"X": X.tolist(), "pole": sgn, "inside_band_by": d}
+                if not np.all(np.isfinite(y)):
+                    report("SO3Euler.log:finite:band", "log(X) is not finite at the gimbal pole", inp, 1.0, 0); continue
+                err = np.max(np.abs(np.atleast_2d(etoM(np.atleast_1d(eexp(y)))) - M))
+                if not err <= 5e-3:
+                    report("SO3Euler.log:exp_log:band", "exp(log(X)) is not X within the band tolerance at the gimbal pole", inp, err, 5e-3)
+                # log(exp(x)) for an algebra element whose exponential is at the pole
+                x = np.array([0.0, sgn * (np.pi / 2 - d), 0.0]) if r == 0 else np.atleast_1d(nl.F("SO3", "SO3Quat.log")(
+                    nl.quat_of_R(M) if hasattr(nl, "quat_of_R") else np.atleast_1d(nl.F("SO3", "SO3Quat.fromMatrix")(M))))
+                Rx = nl.quat_to_R(np.atleast_1d(qexp(x)))
+                y2 = np.atleast_1d(elog(np.atleast_1d(eexp(x))))
+                if np.all(np.isfinite(y2)):
+                    err = np.max(np.abs(nl.quat_to_R(np.atleast_1d(qexp(y2))) - Rx))
+                    if not err <= 5e-3:
+                        report("SO3Euler.log:log_exp:band", "log(exp(x)) is not x within the band tolerance when exp(x) is at the gimbal pole",
+                               dict(inp, x=x.tolist()), err, 5e-3)
     # representation independence of the rotation log
     logs = {r: nl.F("SO3", g + ".log") for g, r in ROT.items()}
     for it in range(reps * 15):
